@@ -168,6 +168,10 @@ pub struct AllocScripts {
     /// 1 + (call index mod 5), so that samples differ.
     #[serde(default)]
     pub benched_vary: bool,
+    /// If set, all sizes are additionally multiplied by 1 + logical thread id,
+    /// so that one thread's operations cannot be mistaken for another's.
+    #[serde(default)]
+    pub vary_by_thread: bool,
     pub gen: Vec<AllocStep>,
     pub benched: Vec<AllocStep>,
     pub drop_out: Vec<AllocStep>,
@@ -201,6 +205,10 @@ pub struct LoopCase {
     pub const_counters: [Option<u64>; 4],
     pub allocs: AllocScripts,
     pub panic: Option<PanicPlan>,
+    /// Under the scheduler: explicit yield points inside each generator /
+    /// benchmarked call / destructor (no effect on real threads).
+    #[serde(default)]
+    pub yields: u8,
 }
 
 impl LoopCase {
@@ -225,6 +233,7 @@ impl LoopCase {
             const_counters: [None; 4],
             allocs: AllocScripts::default(),
             panic: None,
+            yields: 0,
         }
     }
 
@@ -267,6 +276,8 @@ pub enum Ev {
     /// op: 0 grow, 1 shrink(realloc to smaller), 2 alloc, 3 dealloc, 4 equal-size realloc
     AllocOp { op: u8, old: u64, new: u64 },
     Panic { role: Role },
+    /// The thread's allocation tally was cleared.
+    TallyClear,
 }
 
 #[derive(Clone, Copy, Debug, Serialize)]
@@ -395,6 +406,18 @@ fn clock_reader(is_end: bool) -> u64 {
     })
 }
 
+/// Explicit yield points (only meaningful under the scheduler).
+fn yields() {
+    let w = WORLD.load(SeqCst);
+    if w.is_null() {
+        return;
+    }
+    let n = unsafe { &*w }.case.yields;
+    for _ in 0..n {
+        divan::__verif::sched::yield_now();
+    }
+}
+
 /// Counts an occurrence of `role` on this thread and panics if planned.
 fn maybe_panic(role: Role) {
     let fire = with_state(|w, st, t| {
@@ -426,6 +449,9 @@ fn run_alloc_script(pick: fn(&AllocScripts) -> &Vec<AllocStep>) {
     }
     let is_benched = std::ptr::eq(steps, &world.case.allocs.benched);
     let mut factor = 1u32;
+    if world.case.allocs.vary_by_thread {
+        factor = 1 + ltid() as u32;
+    }
     if is_benched {
         // `calls` was already incremented for the call in progress.
         let call_index = with_state(|_, st, _| st.calls.saturating_sub(1)).unwrap_or(0);
@@ -434,7 +460,7 @@ fn run_alloc_script(pick: fn(&AllocScripts) -> &Vec<AllocStep>) {
             return;
         }
         if world.case.allocs.benched_vary {
-            factor = 1 + (call_index % 5) as u32;
+            factor *= 1 + (call_index % 5) as u32;
         }
     }
     for &step in steps {
@@ -517,6 +543,7 @@ fn log_drop(role: u8, id: u64) {
     } else {
         maybe_panic(Role::DropOut);
         log(Ev::DropOut { id });
+        yields();
         let c = WORLD.load(SeqCst);
         if !c.is_null() {
             advance(unsafe { &*c }.case.costs.drop_out);
@@ -607,6 +634,7 @@ fn gen_input<I: Shape<0>>() -> I {
     .unwrap_or(u64::MAX - 2);
     let value = I::make(id);
     log(Ev::Gen { id: value.ident() });
+    yields();
     advance(case().costs.gen);
     run_alloc_script(|a| &a.gen);
     value
@@ -656,6 +684,7 @@ fn benched_body<O: Shape<1>>(input_id: u64, consume_input: impl FnOnce()) -> O {
         panic!("vcheck: runaway run abandoned (event budget)");
     }
     log(Ev::Call { id: input_id });
+    yields();
     maybe_panic(Role::Benched);
     advance(call_cost());
     run_alloc_script(|a| &a.benched);
@@ -838,6 +867,7 @@ pub fn run_loop_with(c: &LoopCase, wrap: impl FnOnce(&mut dyn FnMut())) -> LoopO
     LTID.with(|l| l.set(0));
     WORLD.store(world_ptr, SeqCst);
     clock::set_reader(Some(clock_reader));
+    divan::__verif::alloc::set_clear_observer(Some(|| log(Ev::TallyClear)));
     clock::set_precision(Some(c.precision_ps as u128));
     clock::set_overheads(Some(c.overheads_ps.map(|x| x as u128)));
 
@@ -847,8 +877,10 @@ pub fn run_loop_with(c: &LoopCase, wrap: impl FnOnce(&mut dyn FnMut())) -> LoopO
     let mut painted = None;
     let mut result: Result<(), String> = Ok(());
     {
-        let ctx = BenchCtx::new(if c.test_mode { VAction::Test } else { VAction::Bench }, Some(c.frequency.max(1)));
         let mut body = || {
+            // Created (and dropped) inside the body so that under a scheduler
+            // the pool's workers are spawned, and exit, as scheduled threads.
+            let ctx = BenchCtx::new(if c.test_mode { VAction::Test } else { VAction::Bench }, Some(c.frequency.max(1)));
             let mut run = ctx.start(&options, c.threads.max(1) as usize);
             result = catch(|| galloc::profiled(|| dispatch(run.bencher(), c)));
             outcome_view = run.view();
@@ -861,11 +893,10 @@ pub fn run_loop_with(c: &LoopCase, wrap: impl FnOnce(&mut dyn FnMut())) -> LoopO
             }
         };
         wrap(&mut body);
-        // Dropping the context drops the pool: workers exit.
-        drop(ctx);
     }
 
     clock::set_reader(None);
+    divan::__verif::alloc::set_clear_observer(None);
     clock::set_precision(None);
     clock::set_overheads(None);
     WORLD.store(std::ptr::null_mut(), SeqCst);
